@@ -16,8 +16,9 @@ func init() {
 			"R13.3 each mode flag flows, unchanged and uncrossed, from its builder setter through the options struct into exactly one Parser field (the fields are identified by that flow, not by name); " +
 			"R13.1 every read of the tolerant flag is a branch condition, and on the edge taken when the flag is false an error is recorded before any return and before any token is consumed — so a run that records no error never took a branch whose outcome depended on the flag, hence strict and tolerant runs of a strict-accepted program execute the same path and build the same tree with no errors; " +
 			"R13.2 every read of the smart-semicolon flag is a branch condition in the climbing loop; the only statement cuts it enables are conjoined with the peek token's after-newline flag and a peek type in {'(', '['}, and they return the left operand without consuming anything — so on programs with no '('/'[' at the start of a line the flag is never decisive. " +
-			"A pass shows these necessary conditions for all paths; tree equality itself is not compared, and the positive clause 'tolerant mode keeps every complete statement' is not decided.",
-		notDecided: []string{"tolerant mode keeps every complete statement (positive clause)", "equality of trees as data across modes"},
+			"R13.4 in the separator check and in the block parser every path that records that function's own error has read the tolerant flag as false, and with the flag read as true the separator check answers true and the block parser returns its node (the two documented acceptances). " +
+			"A pass shows these necessary conditions for all paths; tree equality itself is not compared, and 'tolerant mode keeps every complete statement' is decided only at these two sites.",
+		notDecided: []string{"tolerant mode keeps every complete statement beyond the two acceptance sites (positive clause)", "equality of trees as data across modes"},
 	})
 }
 
@@ -41,7 +42,7 @@ func runC13(c *Ctx) {
 		for _, f := range c.libFunctions("parser") {
 			allInstrs(f, func(_ *ssa.BasicBlock, _ int, in ssa.Instruction) {
 				if st, ok := in.(*ssa.Store); ok {
-					if _, ok := isFieldAddr(st.Addr, fld); ok && f != a.ctor {
+					if a.writesFlag(st, fld) && f != a.ctor {
 						c.bad(fmt.Sprintf("%s: store to mode field %s", fnName(f), fld.Name()), st.Pos(), "a mode flag is written outside the constructor: the mode can change during a parse")
 					}
 				}
@@ -50,6 +51,94 @@ func runC13(c *Ctx) {
 	}
 	r13_1(c, a)
 	r13_2(c, a)
+	r13_4(c, a)
+}
+
+// R13.4: the two documented acceptances of tolerant mode. In the separator check and in the block parser every
+// path on which this function itself records an error has read the tolerant flag as false; and with the flag read
+// as true the separator check answers true and the block parser returns its node. (What tolerant mode does to the
+// rest of the statement is not decided.)
+func r13_4(c *Ctx, a *parserAnchors) {
+	c.rule("R13.4", "tolerant mode suppresses exactly the two documented errors: the missing separator and the block left open at end of input")
+	c.floor(4)
+	var blockFn *ssa.Function
+	for _, f := range c.libFunctions("parser") {
+		if len(allocsOf(f, "ast", "BlockStatement")) > 0 {
+			blockFn = f
+		}
+	}
+	sites := []struct {
+		name string
+		f    *ssa.Function
+	}{{"separator check", a.expectSemi}, {"block parser", blockFn}}
+	for _, site := range sites {
+		f := site.f
+		if f == nil {
+			c.unres(site.name, token.NoPos, "function not found")
+			continue
+		}
+		nerr, ntol := 0, 0
+		complete := a.enumPaths(f.Blocks[0], func(facts []pathFact, blocks []*ssa.BasicBlock, last *ssa.BasicBlock) {
+			ret, ok := last.Instrs[len(last.Instrs)-1].(*ssa.Return)
+			if !ok {
+				return
+			}
+			flagTrue, flagFalse := false, false
+			for _, pf := range facts {
+				if pf.at.kind == atFlag && pf.at.fld == a.tolerant {
+					if pf.at.neg {
+						flagFalse = true
+					} else {
+						flagTrue = true
+					}
+				}
+			}
+			var errCall *ssa.Call
+			for _, b := range blocks {
+				for _, call := range callsIn(b) {
+					if cal := call.Call.StaticCallee(); cal != nil && (a.errRecorders[cal] || cal == a.addErrAt) {
+						errCall = call
+					}
+				}
+			}
+			if errCall != nil {
+				nerr++
+				c.check(flagFalse && !flagTrue, fmt.Sprintf("%s (%s): error path #%d", site.name, f.Name(), nerr), errCall.Pos(), "the error is recorded only after the tolerant flag was read as false", "this function records its error on a path that does not depend on the tolerant flag being off: tolerant mode still reports it (two statements on one line / a block left open are documented to be accepted)")
+			}
+			if flagTrue {
+				ntol++
+				key := fmt.Sprintf("%s (%s): tolerant path #%d", site.name, f.Name(), ntol)
+				if len(ret.Results) != 1 {
+					c.unres(key, ret.Pos(), "no single result")
+					return
+				}
+				v := unwrapDeferResult(ret.Results[0])
+				switch {
+				case isTrueConst(v):
+					c.ok(key, ret.Pos(), "answers true")
+				case isFalseConst(v) || isNilConst(v):
+					c.bad(key, ret.Pos(), "with the tolerant flag set the function still gives up (false / nil): the statement or block is dropped although tolerant mode is documented to keep it")
+				default:
+					if _, isAlloc := v.(*ssa.Alloc); isAlloc {
+						c.ok(key, ret.Pos(), "returns the node it built")
+					} else if b, isB := v.Type().Underlying().(*types.Basic); isB && b.Kind() == types.Bool {
+						c.bad(key, ret.Pos(), "with the tolerant flag set the answer still depends on something else (%s): some statements without a separator are refused in tolerant mode", v.Name())
+					} else {
+						c.unres(key, ret.Pos(), "returns a computed value (%s): cannot tell that the node is kept", v.Name())
+					}
+				}
+			}
+		})
+		if !complete {
+			c.unres(site.name+": paths", f.Pos(), "too many paths")
+		}
+		if nerr == 0 {
+			c.unres(site.name+": error path", f.Pos(), "the function records no error itself: the strict-mode diagnostic is missing or lives elsewhere")
+		}
+		if ntol == 0 {
+			c.unres(site.name+": tolerant path", f.Pos(), "no path reads the tolerant flag as true")
+		}
+	}
 }
 
 // R13.1: tolerant flag only on error paths
